@@ -71,6 +71,11 @@ func (sdp *SizeDataPacker) PackDataInChunks(data [][]byte, limit int) ([][]byte,
 				if isMarshaledBuffTooLarge {
 					returningBuff = append(returningBuff, marshaledElements)
 					elements = make([][]byte, 0)
+				} else {
+					// the current element stays buffered, so its marshaled form is what must be
+					// flushed if the next element does not fit
+					lastMarshalized = marshaledElements
+					continue
 				}
 			}
 
